@@ -1279,6 +1279,8 @@ impl Reader {
         // TODO: What does this mean? Can we ever get here?
       }
     }
+    #[cfg(rustdds_verif)]
+    crate::verif::hooks::yield_point(13);
   }
 
   #[cfg(not(feature = "security"))]
